@@ -172,7 +172,11 @@ def evaluate__minus_operator(self: XPathToken, context: ta.ContextType = None) \
 @method('+')
 @method('-')
 def nud__plus_minus_operators(self: XPathToken) -> XPathToken:
-    self[:] = self.parser.expression(rbp=70),
+    if self.parser.version == '1.0':
+        # UnaryExpr ::= UnionExpr | '-' UnaryExpr: the operand of a unary minus is a union expression
+        self[:] = self.parser.expression(rbp=47),
+    else:
+        self[:] = self.parser.expression(rbp=70),
     return self
 
 
